@@ -143,9 +143,12 @@ package ext
 //@   requires sameArray(ov, ob) && off(ov) == off(ob) && len(ov) <= len(ob) && len(ob) <= cap(ob)
 //@   modifies bytes(ov)
 //@   top-ensures len(nv) <= len(ov) && sameArray(nv, ov) && off(nv) == off(ov)
+//@   top-ensures nhl == headerLength && sameArray(nb, ob) && off(nb) >= off(ob) + len(ov) && off(nb) + len(nb) == off(ob) + len(ob)
 //@   loop 0:
 //@     invariant 0 <= write && write <= read && read <= length && length == len(ov) && sameArray(nv, ov) && off(nv) == off(ov) && len(nv) == len(ov)
 //@     invariant capOnly(mkslice(arr(ov), off(ov), len(ov)))
+//@   loop 1:
+//@     invariant length <= next && next <= len(ob)
 
 // HeaderScanner.Next: the scanner only ever moves forward inside one buffer. The new window is a suffix
 // of the old one in the same place (same array, same end), and memory changes only in the prefix that
@@ -153,6 +156,7 @@ package ext
 //@ func HeaderScanner.Next(s) r
 //@   props C02
 //@   nosafety
+//@   requires 0 <= s.HLen && s.HLen <= 281474976710656
 //@   modifies s._all, mem
 //@   top-ensures sameArray(s.B, old(s.B)) && off(s.B) >= off(old(s.B)) && off(s.B) + len(s.B) == off(old(s.B)) + len(old(s.B))
 //@   top-ensures changedOnly(arr(old(s.B)), off(old(s.B)), off(s.B))
